@@ -3,10 +3,11 @@ localstore on LevelDB in a temporary directory.  Files are cached chunk by chunk
 (request puts with file context), then chunks are pinned and unpinned one per call under a root
 context, in random order and including chunks pinned more often than the file has recorded
 counts (a file with a repeated chunk is pinned through a traversal that visits the chunk twice).
-The persisted cached-chunk counter must equal the value the store recomputes from the per-file
-counts when it is reopened."""
+The persisted cached-chunk counter must equal the sum of the recorded per-file counts read from the
+index (in-package test: the startup repair only raises the counter, so a counter that is too high
+is invisible to a reopen), and the value the store recomputes when it is reopened."""
 
-TEST = '''package localstore_test
+TEST = '''package localstore
 
 import (
 	"context"
@@ -15,23 +16,35 @@ import (
 	"testing"
 
 	"github.com/gauss-project/aurorafs/pkg/boson"
-	"github.com/gauss-project/aurorafs/pkg/localstore"
 	"github.com/gauss-project/aurorafs/pkg/logging"
 	"github.com/gauss-project/aurorafs/pkg/sctx"
+	"github.com/gauss-project/aurorafs/pkg/shed"
 	"github.com/gauss-project/aurorafs/pkg/storage"
 	chunktesting "github.com/gauss-project/aurorafs/pkg/storage/testing"
 )
 
-func verifOpen(t *testing.T, dir string, baseKey []byte) *localstore.DB {
-	db, err := localstore.New(dir, baseKey, &localstore.Options{Driver: "leveldb", Capacity: 100000}, logging.New(io.Discard, 0))
+func verifOpen(t *testing.T, dir string, baseKey []byte) *DB {
+	db, err := New(dir, baseKey, &Options{Driver: "leveldb", Capacity: 100000}, logging.New(io.Discard, 0))
 	if err != nil { t.Fatal(err) }
 	return db
 }
 
-func verifGCSize(t *testing.T, db *localstore.DB) int {
+func verifGCSize(t *testing.T, db *DB) int {
 	m, err := db.DebugIndices()
 	if err != nil { t.Fatal(err) }
 	return m["gcSize"]
+}
+
+// the sum of the recorded per-file counts, read from the index itself (the startup repair only
+// ever raises the counter, so a counter that is too high survives a reopen)
+func verifRecorded(t *testing.T, db *DB) int {
+	sum := 0
+	err := db.gcIndex.Iterate(func(item shed.Item) (bool, error) {
+		sum += int(item.GCounter)
+		return false, nil
+	}, nil)
+	if err != nil { t.Fatal(err) }
+	return sum
 }
 
 func TestVerifReplay(t *testing.T) {
@@ -81,6 +94,10 @@ func TestVerifReplay(t *testing.T) {
 			}
 		}
 		before := verifGCSize(t, db)
+		if rec := verifRecorded(t, db); before != rec {
+			t.Logf("REPLAY-CONFIRMED after caching three files and%s (one chunk per call, under the file's root): the persisted cached-chunk counter is %d, the recorded per-file counts add up to %d", hist, before, rec)
+			return
+		}
 		if err := db.Close(); err != nil { t.Fatal(err) }
 		db = verifOpen(t, dir, baseKey)
 		after := verifGCSize(t, db)
@@ -96,4 +113,4 @@ func TestVerifReplay(t *testing.T) {
 
 
 def build(unit, obl, vals):
-    return {"pkg": "pkg/localstore", "pkgname": "localstore_test", "test": TEST, "tags": "leveldb"}
+    return {"pkg": "pkg/localstore", "pkgname": "localstore", "test": TEST, "tags": "leveldb"}
